@@ -16,6 +16,14 @@ HEAD = 'Binde "Duden/Ausgabe" ein.\n'
 
 
 DIRS = ["", "pkg", "pkg/tief"]
+# file names of the modules 1..5: pairwise different only in trailing characters that also occur in the extension ".ddp",
+# sorted like their numbers (a directory walk lists files by name)
+MODNAMES = {1: "ad", 2: "add", 3: "ap", 4: "apd", 5: "app"}
+
+
+def mname(k):
+    return MODNAMES[k]
+
 
 
 def relpath(frm, to, name):
@@ -27,7 +35,7 @@ def relpath(frm, to, name):
 def walk(dirs, d, recursive):
     """modules a directory import of d brings in, in the order of filepath.WalkDir: the entries of a directory
     in lexical order, sub-directories (if recursive) entered where they stand"""
-    entries = [("m%d.ddp" % k, k) for k, dk in dirs.items() if dk == d]
+    entries = [(mname(k) + ".ddp", k) for k, dk in dirs.items() if dk == d]
     subs = sorted({dk[len(d) + 1:].split("/")[0] for dk in dirs.values() if dk.startswith(d + "/")}) if recursive else []
     entries += [(sname, None) for sname in subs]
     out = []
@@ -55,9 +63,9 @@ def module_src(k, stmts, listed, graph_vals, dirs=None):
             continue
         i = st
         if listed.get(i):
-            s += 'Binde g%d aus "%s" ein.\n' % (i, relpath(here, dirs.get(i, ""), "m%d" % i))
+            s += 'Binde g%d aus "%s" ein.\n' % (i, relpath(here, dirs.get(i, ""), mname(i)))
         else:
-            s += 'Binde "%s" ein.\n' % relpath(here, dirs.get(i, ""), "m%d" % i)
+            s += 'Binde "%s" ein.\n' % relpath(here, dirs.get(i, ""), mname(i))
         terms.append("g%d" % i)
     s += ("Die öffentliche Funktion melde%d mit dem Parameter n vom Typ Zahl, gibt eine Zahl zurück, macht:\n"
           "\tSchreibe \"init %d \".\n\tSchreibe n auf eine Zeile.\n\tGib n zurück.\nUnd kann so benutzt werden:\n\t\"melde%d <n>\"\n\n" % (k, k, k))
@@ -117,7 +125,7 @@ def gen_case(rng, with_dirs=False):
 def build_program(case, order_of):
     """files + expected stdout; order_of(imports_so_far, new_import) gives the newly initialised modules"""
     n, graph, listed, vals, main_imports, dirs, stmts = case
-    files = {(dirs[k] + "/" if dirs[k] else "") + "m%d.ddp" % k: module_src(k, stmts[k], listed[k], vals, dirs) for k in range(1, n + 1)}
+    files = {(dirs[k] + "/" if dirs[k] else "") + mname(k) + ".ddp": module_src(k, stmts[k], listed[k], vals, dirs) for k in range(1, n + 1)}
     main = HEAD + 'Schreibe "main start" auf eine Zeile.\n'
     exp = "main start\n"
     done = []
@@ -125,7 +133,7 @@ def build_program(case, order_of):
         if isinstance(st, tuple):
             main += 'Binde %salle Module aus "%s" ein.\n' % ("rekursiv " if st[2] else "", st[1])
         else:
-            main += 'Binde "%s" ein.\n' % relpath("", dirs[st], "m%d" % st)
+            main += 'Binde "%s" ein.\n' % relpath("", dirs[st], mname(st))
         for m in flat([st]):
             for x in order_of(done, m):
                 exp += "init %d %d\ninit %d %d\n" % (x, vals[x], x, 100 + x)
@@ -307,7 +315,7 @@ def check(res, tier):
         for st_ in list(main_imports) + [x for v in stmts.values() for x in v]:
             if isinstance(st_, tuple):
                 _, d, rec, members = st_
-                below = ["%s=%d" % ((dk[len(d) + 1:] + "/" if dk != d else "") + "m%d.ddp" % k, k) for k, dk in sorted(dirs.items()) if dk == d or dk.startswith(d + "/")]
+                below = ["%s=%d" % ((dk[len(d) + 1:] + "/" if dk != d else "") + mname(k) + ".ddp", k) for k, dk in sorted(dirs.items()) if dk == d or dk.startswith(d + "/")]
                 dreqs.append("dirwalk %d %s" % (1 if rec else 0, ",".join(below) or "-"))
                 dwant.append(",".join(str(m) for m in members))
     for rq, want, got in zip(dreqs, dwant, corr.run_lines(model, dreqs)):
